@@ -452,6 +452,12 @@ class Ctx:
 
     # -- coq ---------------------------------------------------------------
     def prove(self, extra_obligations: list[str] | None = None) -> bool:
+        # regenerate the table files from the current source first: the theorems are re-checked against what the code says now
+        for t in sorted((VERIF / "translators").glob("tr_*.py")):
+            with Lock("translate"):
+                ok, out = run_translator(t.stem, [])
+            if not ok:
+                self.broke(f"translator:{t.stem}", out[-300:].replace("\n", " | "))
         bad = scan_forbidden()
         if bad:
             self.broke("forbidden-construct-scan", "; ".join(bad[:5]))
